@@ -12,6 +12,9 @@ import (
 	"go/types"
 	"os"
 	"path/filepath"
+	"runtime"
+	"runtime/debug"
+	"runtime/pprof"
 	"sort"
 	"strconv"
 	"strings"
@@ -101,7 +104,13 @@ func main() {
 	wallLimit := flag.Int("walllimit", 0, "per run wall limit seconds (0 = none); hitting it marks the run truncated")
 	vec := flag.String("vector", "", "concrete vector json file: run harness concretely")
 	flag.IntVar(&optMaxNlz, "maxnlz", 2, "max leading zero bytes explored for big.Int.Bytes")
+	cpuprof := flag.String("cpuprofile", "", "")
 	flag.Parse()
+	if *cpuprof != "" {
+		pf, _ := os.Create(*cpuprof)
+		pprof.StartCPUProfile(pf)
+		defer pprof.StopCPUProfile()
+	}
 
 	output := &Output{Solver: *solverBin}
 	writeOut := func() {
@@ -183,8 +192,11 @@ func main() {
 	}
 	prog, spkgs := ssautil.AllPackages(pkgs, ssa.InstantiateGenerics)
 	prog.Build()
-	output.LoadS = time.Since(t0).Seconds()
 	mainPkg := spkgs[0]
+	pkgs, spkgs, cfg = nil, nil, nil
+	runtime.GC()
+	debug.SetGCPercent(400)
+	output.LoadS = time.Since(t0).Seconds()
 
 	e := newEngine(prog)
 	e.trace = *trace
@@ -372,6 +384,9 @@ func (e *Engine) runHarness(f *ssa.Function, label string, iargs []int64, maxPat
 	rr.Queries = e.solver.Queries - q0
 	rr.SolverS = (e.solver.Time - s0).Seconds()
 	rr.WallS = time.Since(t0).Seconds()
+	if os.Getenv("GOSYM_DEBUG") != "" {
+		fmt.Fprintf(os.Stderr, "%s: wall %.2f solver %.2f io %.2f defs %d decls %d\n", label, rr.WallS, rr.SolverS, ioTime.Seconds(), len(defs), len(decls))
+	}
 	rr.Unknowns = e.Unknowns
 	rr.Observed = e.observed
 	var tags []string
